@@ -493,16 +493,16 @@ def gen_cases(ctx):
         yield d
     for n in (1, 2, 3):
         yield from exh_words(n)
-    yield from exh_deep(4)
     N = 12000 if tier == "quick" else 150000
-    first = N if tier == "quick" else 40000
+    first = 4000 if tier == "quick" else 40000
     for i in range(first):
         yield rand_history(rng, i)
+    yield from exh_deep(4)
     if tier == "thorough":
         yield from exh_words(4)
         yield from exh_deep(5)
-        for i in range(first, N):
-            yield rand_history(rng, i)
+    for i in range(first, N):
+        yield rand_history(rng, i)
 
 
 # ----------------------------------------------------------------------------- run / replay
@@ -573,7 +573,7 @@ def run(ctx):
     import time
     bad_spec, bad_corr = [], []
     gen = gen_cases(ctx)
-    BATCH = 24000
+    BATCH = 12000 if ctx["tier"] == "quick" else 24000
     # leave time for shrinking / reporting; the exhaustive part is always completed
     soft_deadline = ctx["deadline"] - (110 if ctx["tier"] == "quick" else 1080)  # t0+40 s / t0+7 min
     truncated = 0
